@@ -124,8 +124,8 @@ def dp(s1, s2, fn, border=None, window=None, max_dist=None,
                     scores[i1, j1] = np.inf
                     if prev_last_under_max_dist < j1:
                         break
-        if max_dist is not None and last_under_max_dist == -1:
-            return np.inf, scores
+        if c > 0 and max_dist is not None and last_under_max_dist == -1:
+            return np.inf, scores, paths
     if psi == 0:
         d = scores[i1, min(c, c + window - 1)]
     else:
